@@ -235,18 +235,4 @@ theorem parseUnit_printed (env : Env) (secs : Unit) (wf : ∀ p ∈ secs, WFSec 
         (by simpa using hnd)
       simpa using this
 
-/-- C06 core: a well-formed unit printed by `to_string` parses back to itself -/
-theorem parse_print (env : Env) (u : Unit) (wf : ∀ p ∈ u, WFSec env p.1 p.2) (hnd : (u.map Prod.fst).Nodup) :
-    parse env (printUnit u) = .ok u := by
-  unfold parse
-  have hlen : u.length ≤ (printUnit u).length := by
-    induction u with
-    | nil => simp
-    | cons p u ih =>
-      obtain ⟨sec, es⟩ := p
-      rw [printUnit_cons]
-      have := ih (fun q hq => wf q (by simp [hq])) (by simp at hnd; exact hnd.2)
-      simp; omega
-  simpa using parseUnit_printed env u wf [] _ (by omega) (by simpa using hnd)
-
 end Parse
